@@ -154,19 +154,14 @@ func refUndashed(id uuid.UUID) string {
 }
 
 // refRouteHost is the host a downstream proxy routes on, written from the statement: the first NUL part without a
-// TCPShield "///ip///timestamp" suffix and without leading/trailing dots.
+// TCPShield "///ip///timestamp" suffix. Leading/trailing dots are a don't-care (the statement does not mention
+// them): both sides are compared with them removed.
 func refRouteHost(addr string) string {
 	h := firstPart(addr)
 	if i := strings.Index(h, "///"); i >= 0 {
 		h = h[:i]
 	}
-	for len(h) > 0 && h[0] == '.' {
-		h = h[1:]
-	}
-	for len(h) > 0 && h[len(h)-1] == '.' {
-		h = h[:len(h)-1]
-	}
-	return h
+	return strings.Trim(h, ".")
 }
 
 func firstPart(s string) string { return strings.SplitN(s, "\x00", 2)[0] }
@@ -324,7 +319,7 @@ func oneRound(r *vrt.R, c hsCase, round int, player *connectedPlayer, p *Proxy, 
 		}
 		// "so a downstream proxy routing on it sees the same host": what the real host extraction of a downstream
 		// Gate (lite.ClearVirtualHost) makes of the address the backend receives
-		if got, wantHost := lite.ClearVirtualHost(addr), refRouteHost(clientAddr); got != wantHost {
+		if got, wantHost := strings.Trim(lite.ClearVirtualHost(addr), "."), refRouteHost(clientAddr); got != wantHost {
 			r.Violation("host-first/downstream-route-host", fmt.Sprintf("%s (connection #%d): a downstream proxy extracts host %q from %q, the player's host is %q", c, round+1, got, addr, wantHost), c)
 			return false
 		}
